@@ -113,54 +113,54 @@ pub fn clear_rules() {
     BREAKER_MAP.write().unwrap().clear();
 }
 
+// This func acquires locks on global `CURRENT_RULES`, `BREAKER_MAP` and `BREAKER_RULES`
+// (in the same order as `load_rules`), please release your locks on them before calling this func
 pub fn append_rule(rule: Arc<Rule>) -> bool {
-    if CURRENT_RULES
-        .lock()
-        .unwrap()
+    let mut global_rule_map = CURRENT_RULES.lock().unwrap();
+    if global_rule_map
         .get(&rule.resource)
         .unwrap_or(&HashSet::new())
         .contains(&rule)
     {
         return false;
     }
-    match rule.is_valid() {
-        Ok(_) => {
-            CURRENT_RULES
-                .lock()
-                .unwrap()
-                .entry(rule.resource.clone())
-                .or_default()
-                .insert(Arc::clone(&rule));
-            BREAKER_RULES
-                .write()
-                .unwrap()
-                .entry(rule.resource.clone())
-                .or_default()
-                .insert(Arc::clone(&rule));
-        }
-        Err(err) => logging::warn!(
-            "[Hot Spot append_rule] Ignoring invalid flow rule {:?}, reason: {:?}",
+    if let Err(err) = rule.is_valid() {
+        logging::warn!(
+            "[CircuitBreaker append_rule] Ignoring invalid circuit breaking rule {:?}, reason: {:?}",
             rule,
             err
-        ),
+        );
+        return false;
     }
+    global_rule_map
+        .entry(rule.resource.clone())
+        .or_default()
+        .insert(Arc::clone(&rule));
+    // rebuild the breakers of this resource from all of its valid rules,
+    // reusing the breakers (and thus the states and statistics) of the unchanged ones
+    let valid_rules: HashSet<Arc<Rule>> = global_rule_map[&rule.resource]
+        .iter()
+        .filter(|r| r.is_valid().is_ok())
+        .cloned()
+        .collect();
+    let mut global_breaker_map = BREAKER_MAP.write().unwrap();
     let mut placeholder = Vec::new();
-    let new_tcs_of_res = build_resource_circuit_breaker(
+    let new_cbs_of_res = build_resource_circuit_breaker(
         &rule.resource,
-        BREAKER_RULES.read().unwrap().get(&rule.resource).unwrap(),
-        BREAKER_MAP
-            .write()
-            .unwrap()
+        &valid_rules,
+        global_breaker_map
             .get_mut(&rule.resource)
             .unwrap_or(&mut placeholder),
     );
-    if !new_tcs_of_res.is_empty() {
-        BREAKER_MAP
+    if new_cbs_of_res.is_empty() {
+        global_breaker_map.remove(&rule.resource);
+        BREAKER_RULES.write().unwrap().remove(&rule.resource);
+    } else {
+        global_breaker_map.insert(rule.resource.clone(), new_cbs_of_res);
+        BREAKER_RULES
             .write()
             .unwrap()
-            .entry(rule.resource.clone())
-            .or_default()
-            .push(Arc::clone(&new_tcs_of_res[0]));
+            .insert(rule.resource.clone(), valid_rules);
     }
     true
 }
